@@ -773,6 +773,8 @@ class Engine:
             if m and m.group(3) in ('IntToInt',):
                 v = self.operand(st, m.group(1)); ty = m.group(2)
                 lo, hi = INT_RANGES[ty]; n = hi - lo + 1
+                if not isinstance(v, IntV):
+                    return self.ex.fresh(ty, self.ex.fresh_name('cast_of_opaque'))      # integer cast of a value the encoder does not track: any value of the target type
                 src = INT_RANGES.get(v.ty)
                 if src and src[0] >= lo and src[1] <= hi:
                     return IntV(v.e, ty)
